@@ -27,6 +27,8 @@ fn element_exprs() -> gen::VS {
         1 => Just(json!({"reduce": [{"var": ""}, {"cat": [{"var": "accumulator"}, {"var": "current"}]}, "|"]})),
         1 => Just(json!({"log": [{"var": ""}]})),
         1 => Just(json!({"var": "0"})),
+        // keys that need var's path rules: backslash escapes with and without a dot, dotted paths
+        1 => select(vec!["a\\b", "qty\\", "a\\.b", "x.y", "ab", "a.b"]).prop_map(|k| json!({"var": k})),
         1 => Just(json!({"merge": [{"var": ""}, "x"]})),
         1 => gen::scalars(),
         1 => Just(json!([])),
@@ -63,6 +65,8 @@ fn elements() -> gen::VS {
         2 => Just(json!({"a": 1, "b": 2})),
         1 => Just(json!({"a": null})),
         1 => Just(json!({"b": 2, "outer": "shadow"})),
+        1 => Just(json!({"ab": 1, "a\\b": 2, "a.b": 3, "a": {"b": 4}, "qty": 5, "qty\\": 6, "x": {"y": 7}})),
+        1 => Just(json!({"ab": 3})),
         2 => vec(gen::small_ints(), 0..=3).prop_map(Value::Array),
         1 => Just(json!([[1, 2], [3]])),
         1 => gen::op_shaped(),
@@ -199,6 +203,24 @@ fn check_hof(case: &Value, obs: &mut Obs) -> Result<(), String> {
     Ok(())
 }
 
+/// arithmetic folds over integers near 2^53 / 2^63: every step goes through the double-valued operator
+fn gen_big_sums() -> BoxedStrategy<Value> {
+    let big = || prop_oneof![3 => select(gen::INT_EXTREMES.to_vec()).prop_map(gen::j), 1 => select(gen::UINT_EXTREMES.to_vec()).prop_map(gen::j), 2 => (-3i64..4).prop_map(gen::j), 1 => Just(json!(9007199254740992i64)), 1 => Just(json!(1))];
+    let reducer = select(vec![
+        json!({"+": [{"var": "current"}, {"var": "accumulator"}]}),
+        json!({"+": [{"var": "accumulator"}, {"var": "current"}]}),
+        json!({"*": [{"var": "current"}, {"var": "accumulator"}]}),
+        json!({"-": [{"var": "accumulator"}, {"var": "current"}]}),
+        json!({"max": [{"var": "current"}, {"var": "accumulator"}]}),
+        json!({"+": [{"var": "current"}, {"var": "accumulator"}, 0]}),
+    ]);
+    (vec(big(), 1..=5), reducer, big(), any::<bool>()).prop_map(|(xs, r, init, literal)| {
+        let data = json!({"xs": xs, "outer": "OUTER"});
+        let coll = if literal { Value::Array(xs) } else { json!({"var": "xs"}) };
+        json!({"op": "reduce", "coll": coll, "expr": r, "init": init, "data": data, "kind": "big integers"})
+    }).boxed()
+}
+
 fn gen_hof() -> BoxedStrategy<Value> {
     (select(vec!["map", "filter", "reduce", "reduce"]), collections(), element_exprs(), reduce_exprs(), prop_oneof![2 => gen::scalars(), 1 => Just(json!({"var": "outer"})), 1 => Just(json!({"cat": ["i", "n"]})), 1 => Just(json!([])), 1 => Just(json!({"var": "xs"}))])
         .prop_map(|(op, (coll, data, kind), e, re, init)| json!({"op": op, "coll": coll, "expr": if op == "reduce" { re } else { e }, "init": init, "data": data, "kind": kind}))
@@ -232,6 +254,18 @@ pub fn property() -> Property {
                 check: check_hof,
                 quick: 200_000,
                 thorough: 10_000_000,
+                small_stack: false,
+            },
+            Sub {
+                name: "big_integer_folds",
+                about: "reduce with + * - max reducers (both operand orders) over 1-5 integers near 2^53, 2^63, 2^64 with an integer initial value, literal and computed collections: model plus the explicit step-by-step fold through the operator (every partial result is a double).",
+                nontrivial: "every case.",
+                strategy: Some(gen_big_sums),
+                fixed: None,
+                fixed_exhaustive: false,
+                check: check_hof,
+                quick: 30_000,
+                thorough: 1_500_000,
                 small_stack: false,
             },
             Sub {
